@@ -682,6 +682,21 @@ def check_equality(ctx, rng, ids_):
     if not (a == b and b == a) or (a != b):
         ctx.violation("equal-structures-compare-unequal", "the same recipe built twice is !=", wit)
         return
+    # the same attributes supplied in another order: the set of attributes and their values are what they were
+    r_rev = copy.deepcopy(r)
+    reordered = 0
+    for x in gen.walk(r_rev):
+        if x["k"] == "tag" and len(x.get("attrs") or []) > 1:
+            names = [(n_[:-1] if n_.endswith("_") else n_).replace("_", "-") for n_, _v in x["attrs"]]
+            if len(set(names)) == len(names):
+                x["attrs"].reverse()
+                reordered += 1
+    if reordered:
+        c = gen.build(r_rev)
+        ctx.count("monitor.equality_reordered_attrs")
+        if not (a == c and c == a) or (a != c):
+            ctx.violation("equal-structures-compare-unequal", "tags with the same attributes and values, supplied in another order, are !=", dict(wit, reordered=r_rev))
+            return
     for desc, r2 in point_mutations(rng, r):
         c = gen.build(r2)
         ctx.count("monitor.equality")
